@@ -212,6 +212,15 @@ pub fn make_root(backend: &str, scratch: &str, n: &mut u64) -> (VfsPath, Option<
             lo.join("c").unwrap().create_dir().unwrap();
             (VfsPath::new(OverlayFS::new(&[up, lo])), None)
         }
+        "ovl(mem,mem,mem)" => {
+            // three layers: /c exists only in the LOWEST one, the middle layer holds /m
+            let up = VfsPath::new(MemoryFS::new());
+            let mid = VfsPath::new(MemoryFS::new());
+            let lo = VfsPath::new(MemoryFS::new());
+            mid.join("m").unwrap().create_dir().unwrap();
+            lo.join("c").unwrap().create_dir().unwrap();
+            (VfsPath::new(OverlayFS::new(&[up, mid, lo])), None)
+        }
         "phys" => {
             *n += 1;
             let dir = std::path::PathBuf::from(scratch).join(format!("sched_{}_{}", std::process::id(), n));
@@ -399,6 +408,8 @@ pub fn run(o: &Opts) -> Report {
     let mut n = 0u64;
     let scratch = o.scratch.clone();
     let mut model_lines: Vec<String> = vec![];
+    let mut oconc_cmp: Vec<(Vec<usize>, String)> = vec![];
+    let mut oconc_desc: Vec<String> = vec![];
     let mut model_expect: Vec<(String, String)> = vec![]; // (impl output, description)
     // `--prop C03`: the curated race-prone programs and a few generated ones, judged ONLY by C03's clause —
     // no orphan in any state a concurrent history can reach (the tree a schedule ends in is well-formed)
@@ -528,7 +539,7 @@ pub fn run(o: &Opts) -> Report {
         }
     } else {
         // C17: concurrent create_dir_all
-        let backends = ["mem", "alt(mem)", "ovl(mem,mem)"];
+        let backends = ["mem", "alt(mem)", "ovl(mem,mem)", "ovl(mem,mem,mem)"];
         let path_sets: Vec<Vec<&str>> = vec![
             vec!["/a", "/a"],
             vec!["/a/b", "/a/b"],
@@ -543,6 +554,9 @@ pub fn run(o: &Opts) -> Report {
             // below a directory that (on the overlay) exists only in the lower layer
             vec!["/c/x", "/c/y"],
             vec!["/c/x/p", "/c/y/q"],
+            // below a directory of the MIDDLE layer (three-layer overlay), and next to one of the lowest
+            vec!["/m/x", "/m/y"],
+            vec!["/m/x", "/c/y"],
             // … and after that directory was removed through the overlay (marker present)
             vec!["!/c/x", "/c/y"],
             vec!["!/c", "/c/x"],
@@ -578,9 +592,77 @@ pub fn run(o: &Opts) -> Report {
                     }
                 }
                 *EXTRA_PATHS.lock().unwrap() = prefixes.clone();
-                let r = explore(&prog, &scratch, &mut n, cap, &mut rng, |out| {
+                let r = explore(&prog, &scratch, &mut n, if backend == "ovl(mem,mem,mem)" && !o.thorough() { cap / 2 } else { cap }, &mut rng, |out| {
                     rep.evaluations += 1;
                     rep.distinct_hash(&format!("{}|{:?}", desc, out.schedule));
+                    if backend == "alt(mem)" {
+                        // CORR (small-step model AltrootConc.lean): the same schedule, one token per call of the inner MemoryFS
+                        let mut seen = vec![false; ps.len()];
+                        let steps: Vec<String> = out
+                            .schedule
+                            .iter()
+                            .filter(|t| {
+                                let first = !seen[**t];
+                                seen[**t] = true;
+                                !first
+                            })
+                            .map(|t| t.to_string())
+                            .collect();
+                        let labels: Vec<String> = out.traces.iter().map(|t| t.iter().filter(|l| *l != "start").map(|l| l.split(':').next().unwrap_or("?").to_string()).collect::<Vec<_>>().join(",")).collect();
+                        let snap: Vec<String> = prefixes.iter().map(|p| out.snap.split(' ').find(|t| t.starts_with(&format!("{}=", p))).map(|t| t[p.len() + 1..].to_string()).unwrap_or("?".into())).collect();
+                        model_lines.push("reset".into());
+                        model_lines.push("leaf mem".into());
+                        model_lines.push("fs 0 leaf 0".into());
+                        model_lines.push(format!("op 0 create_dir {}", enc_str("/root")));
+                        model_lines.push(format!("fs 9 alt 0 {}", enc_str("root")));
+                        model_lines.push(format!("aconc 0:{} | {} | {}", enc_str("root"), ps.iter().map(|p| enc_str(p)).collect::<Vec<_>>().join(" "), steps.join(" ")));
+                        model_lines.push(format!("snap 9 {}", prefixes.iter().map(|p| enc_str(p)).collect::<Vec<_>>().join(" ")));
+                        let imp = format!("{} | {} | {}", out.results.iter().map(|r| r.join(",")).collect::<Vec<_>>().join(" ; "), labels.join(" ; "), snap.join(" "));
+                        oconc_cmp.push((out.schedule.clone(), imp));
+                        oconc_desc.push(desc.clone());
+                    }
+                    if backend.starts_with("ovl") {
+                        let three = backend == "ovl(mem,mem,mem)";
+                        // CORR (small-step model OverlayConc.lean): the same schedule, one token per layer call
+                        let mut seen = vec![false; ps.len()];
+                        let steps: Vec<String> = out
+                            .schedule
+                            .iter()
+                            .filter(|t| {
+                                let first = !seen[**t];
+                                seen[**t] = true;
+                                !first
+                            })
+                            .map(|t| t.to_string())
+                            .collect();
+                        let labels: Vec<String> = out.traces.iter().map(|t| t.iter().filter(|l| *l != "start").map(|l| l.split(':').next().unwrap_or("?").to_string()).collect::<Vec<_>>().join(",")).collect();
+                        let snap: Vec<String> = prefixes.iter().map(|p| out.snap.split(' ').find(|t| t.starts_with(&format!("{}=", p))).map(|t| t[p.len() + 1..].to_string()).unwrap_or("?".into())).collect();
+                        model_lines.push("reset".into());
+                        model_lines.push("leaf mem".into());
+                        model_lines.push("leaf mem".into());
+                        model_lines.push("fs 0 leaf 0".into());
+                        model_lines.push("fs 1 leaf 1".into());
+                        let e = enc_str("");
+                        let layers = if three {
+                            model_lines.push("leaf mem".into());
+                            model_lines.push("fs 2 leaf 2".into());
+                            model_lines.push(format!("op 1 create_dir {}", enc_str("/m")));
+                            model_lines.push(format!("op 2 create_dir {}", enc_str("/c")));
+                            format!("0:{} 1:{} 2:{}", e, e, e)
+                        } else {
+                            model_lines.push(format!("op 1 create_dir {}", enc_str("/c")));
+                            format!("0:{} 1:{}", e, e)
+                        };
+                        model_lines.push(format!("fs 9 ovl {}", layers));
+                        if removed_first {
+                            model_lines.push(format!("op 9 remove_dir {}", enc_str("/c")));
+                        }
+                        model_lines.push(format!("oconc {} | {} | {}", layers, ps.iter().map(|p| enc_str(p)).collect::<Vec<_>>().join(" "), steps.join(" ")));
+                        model_lines.push(format!("snap 9 {}", prefixes.iter().map(|p| enc_str(p)).collect::<Vec<_>>().join(" ")));
+                        let imp = format!("{} | {} | {}", out.results.iter().map(|r| r.join(",")).collect::<Vec<_>>().join(" ; "), labels.join(" ; "), snap.join(" "));
+                        oconc_cmp.push((out.schedule.clone(), imp));
+                        oconc_desc.push(desc.clone());
+                    }
                     if bad.is_none() {
                         if out.results.iter().flatten().any(|r| r != "ok") {
                             bad = Some((format!("a create_dir_all call did not succeed: {:?}", out.results), out.schedule.clone()));
@@ -675,6 +757,36 @@ pub fn run(o: &Opts) -> Report {
                 let _ = std::fs::remove_dir_all(d);
             }
         }
+    }
+    // CORR batch (C17, overlay): the small-step model under every explored schedule
+    if model_lines.iter().any(|l| l.starts_with("oconc") || l.starts_with("aconc")) {
+        let outs = run_driver(&o.driver, &model_lines);
+        let mut compared = 0u64;
+        let mut i = 0;
+        while i < model_lines.len() {
+            if model_lines[i].starts_with("oconc") || model_lines[i].starts_with("aconc") {
+                let (schedule, imp) = &oconc_cmp[compared as usize];
+                // model: "<results> | <labels>" then the snapshot line
+                let m_res = outs[i].split(" | ").next().unwrap_or("").split(" ; ").map(|r| if r == "ok" { "ok" } else if r.starts_with("err") { "err" } else { r }).collect::<Vec<_>>().join(" ; ");
+                let m_lab = outs[i].split(" | ").nth(1).unwrap_or("");
+                let m_snap: Vec<String> = outs[i + 1]
+                    .split(' ')
+                    .filter(|t| t.contains('='))
+                    .map(|t| {
+                        let v = t.split('=').nth(1).unwrap_or("?");
+                        if v.starts_with("E|D") { "D".to_string() } else if v.starts_with("A") { "A".to_string() } else { format!("F:{}", v) }
+                    })
+                    .collect();
+                let m = format!("{} | {} | {}", m_res, m_lab, m_snap.join(" "));
+                if &m != imp {
+                    rep.fail(Fail { oracle: "corr".into(), signature: format!("{}:small-step-model-differs", if model_lines[i].starts_with("aconc") { "alt" } else { "ovl" }), what: format!("{} under schedule {:?}: implementation [{}] / small-step model [{}]", oconc_desc[compared as usize], schedule, imp, m), script: vec![oconc_desc[compared as usize].clone(), format!("schedule {:?}", schedule), model_lines[i].clone()], impl_out: imp.clone(), model_out: m });
+                }
+                compared += 1;
+            }
+            i += 1;
+        }
+        rep.count_n("oconc-schedules-compared", compared);
+        model_lines.clear();
     }
     // CORR batch (C16)
     if !model_lines.is_empty() && !c03 {
